@@ -333,6 +333,20 @@ package table
 //@   at-return requires !old(newPath.IsWithdraw) ==> called(insertSort)
 //@   at-return requires old(newPath.IsWithdraw) ==> called(explicitWithdraw) && !called(insertSort)
 
+// from C10: "resulting attributes equal those of a plain interpreter of the documented model": the remove action for
+// extended communities keeps every community that no pattern matches (and only those)
+//@ props C10
+//@ func RegexpRemoveExtCommunities
+//@   requires path != nil
+//@   claims step
+//@   loop 0 step !match ==> len(newComms) == header(len(newComms)) + 1 && newComms[len(newComms)-1] == comm
+//@   loop 0 step match ==> len(newComms) == header(len(newComms))
+//@ func RegexpRemoveLargeCommunities
+//@   requires path != nil
+//@   claims step
+//@   loop 0 step !match ==> len(newComms) == header(len(newComms)) + 1 && newComms[len(newComms)-1] == comm
+//@   loop 0 step match ==> len(newComms) == header(len(newComms))
+
 // from C16: the verdict as the policy condition uses it. ROATable.Validate gives no verdict (nil) for withdrawals and
 // for families that have no ROA table (everything but IPv4/IPv6 unicast); the rpki condition, which is evaluated for
 // every family, must not dereference that
